@@ -536,9 +536,14 @@ func (m *Machine) randRead(b SliceV, full bool) Val {
 		m.readLens = append(m.readLens, k)
 		return TupleV{bv64(k), m.makeError("injected random source failure")}
 	}
-	if !full && m.shortReads && n > 1 {
+	if !full && m.shortReads && n > 1 && !m.shortTaken {
 		// a bare Reader.Read may legally return fewer bytes with a nil error
+		// (at most one short read per path: enough to expose a caller that
+		// ignores the count, without 4^reads paths)
 		k := 1 + m.chooseN(n, "short read length")
+		if k < n {
+			m.shortTaken = true
+		}
 		for i := 0; i < k; i++ {
 			m.storeCell(b.A.E[b.Off+i], m.freshTapeByte(), "rand.Read")
 		}
@@ -556,6 +561,15 @@ func (m *Machine) randRead(b SliceV, full bool) Val {
 }
 
 func (m *Machine) freshTapeByte() *Term {
+	if m.rewound {
+		// second pass over the same stream
+		if m.tapePos < len(m.tape) {
+			t := m.tape[m.tapePos]
+			m.tapePos++
+			return t
+		}
+		m.tapePos++
+	}
 	t := Var(fmt.Sprintf("tape%d", len(m.tape)), 8)
 	m.tape = append(m.tape, t)
 	return t
